@@ -435,8 +435,9 @@ def finish(prop, tier, seed, runner, level, rule, trusted, floors=None, extra_co
             undecided.append(r)
         elif r['status'] == 'unsupported':
             unsupported.append(r)
-    for v in (extra_viol or []):
-        violations.append(v)
+    for (r, v) in (extra_viol or []):
+        hit = next((k for k in known if finding_matches(k, prop, r, v)), None)
+        (known_hits.setdefault(hit['id'], []) if hit else violations).append((r, v))
     os.makedirs(os.path.join(VERIF, 'evidence'), exist_ok=True)
     replay_dir = os.path.join(VERIF, 'evidence', 'replay')
     os.makedirs(replay_dir, exist_ok=True)
